@@ -209,7 +209,8 @@ def _flat(t: T, assume, out: List[Seg]) -> None:
         items = listify(t.a[1][0])
         # with a non-empty separator only the shape "unconditional first piece, then (conditional) pieces" is a plain
         # concatenation:  sep.join([a] + ([b] if c else []))  ==  a + (sep + b if c else '')
-        if items is not None and sep and not (items and not items[0][1] and all(is_stringy(e) for e, _ in items)):
+        # (every element handed to str.join is a string, whatever expression produced it)
+        if items is not None and sep and not (items and not items[0][1]):
             items = None
         if items is not None:
             for i, (elem, conds) in enumerate(items):
@@ -245,6 +246,17 @@ def listify(t: T):
     if t.op == "bin" and t.a[0] == "+":
         l, r = listify(t.a[1]), listify(t.a[2])
         return None if l is None or r is None else l + r
+    if t.op == "tuple" and not any(x.op == "star" for x in t.a[0]):
+        return [(x, ()) for x in t.a[0]]
+    if t.op == "call" and t.a[0].op == "builtin" and t.a[0].a[0] in ("list", "tuple") and len(t.a[1]) == 1 and not t.a[2]:
+        return listify(t.a[1][0])
+    if t.op == "call" and t.a[0] == T("global", ("itertools.compress",)) and len(t.a[1]) == 2 and not t.a[2]:
+        # compress((a, b), (ca, cb)): a if ca, b if cb - in order
+        data, sel = t.a[1]
+        if data.op in ("tuple", "list") and sel.op in ("tuple", "list") and len(data.a[0]) == len(sel.a[0]) \
+                and not any(x.op == "star" for x in data.a[0] + sel.a[0]):
+            return [(d, ((c, True),)) for d, c in zip(data.a[0], sel.a[0])]
+        return None
     if t.op == "ite":
         a, b = listify(t.a[1]), listify(t.a[2])
         if a is None or b is None:
@@ -252,7 +264,11 @@ def listify(t: T):
         n = 0
         while n < len(a) and n < len(b) and a[n] == b[n]:
             n += 1
-        return a[:n] + [(e, ((t.a[0], True),) + cd) for e, cd in a[n:]] + [(e, ((t.a[0], False),) + cd) for e, cd in b[n:]]
+        ra, rb = a[n:], b[n:]
+        if ra and len(ra) == len(rb) and all(x[1] == y[1] for x, y in zip(ra, rb)):
+            # the same number of pieces either way: each piece is one element whose value depends on the condition
+            return a[:n] + [(T("ite", (t.a[0], x[0], y[0])), x[1]) for x, y in zip(ra, rb)]
+        return a[:n] + [(e, ((t.a[0], True),) + cd) for e, cd in ra] + [(e, ((t.a[0], False),) + cd) for e, cd in rb]
     return None
 
 
